@@ -43,6 +43,13 @@ def cases(tier, rng):
         for L in (0, 1, 64):
             for ml, bl in ((0, None), (3, None), (3, 17), (513, None), (600, 4799)):
                 yield {'k': 'md6', 'd': d, 'L': L, 'kl': [0, 10][ml % 2], 'ml': ml, 'r': None, 'bl': bl}
+    # keys whose bytes follow a pattern (all zero, all ones, one bit set), at the default round count and at a fixed one:
+    # a key is a byte string of a given length, whatever its bytes are
+    for d in (1, 64, 128, 159, 160, 256, 512):
+        for kl in (1, 8, 64):
+            for kpat in ('zero', 'ones', 'walk'):
+                for L, ml, r in ((64, 3, None), (0, 600, None), (1, 0, 3)):
+                    yield {'k': 'md6', 'd': d, 'L': L, 'kl': kl, 'ml': ml, 'r': r, 'bl': None, 'kpat': kpat}
     for d in (256, 7, 512):
         for L in LS:
             for ml, bl in ((600, 100), (600, 4096), (600, 4097), (2049, 4096), (2049, 8 * 512 * 3 + 5), (1000, 3), (5000, 8 * 2048), (5000, 8 * 2048 + 1), (9000, 8 * 8192 + 3)):
@@ -97,7 +104,7 @@ def run(case, ctx, rng):
         siblings(ctx, rng, 'siblings:md6==spec', specs, late=specs.pop())
         return
     d, L, kl, ml, r, bl = (case[x] for x in ('d', 'L', 'kl', 'ml', 'r', 'bl'))
-    M = pattern(rng, ml, case.get('pat', 'rand')); key = rng.randbytes(kl)        # also messages whose blocks are all equal
+    M = pattern(rng, ml, case.get('pat', 'rand')); key = pattern(rng, kl, case.get('kpat', 'rand'))        # also messages whose blocks are all equal
     ctx.cls((d if d in DS else 'd%%8=%d' % (d % 8), L, kl, r or 'default', nblk_class(ml), ml % 512 in (0, 1, 511), ml % 384 in (0, 1, 383), (bl or 0) % 8))
     def f():
         h = MD6(d, key, L)
